@@ -816,6 +816,9 @@ def run_execution(case: dict, *, max_invocations: int | None = None, hooks: dict
             sched.on_root_done = on_root_done
             sched.run(lambda: handler(event, lam), watchdog_s=case.get("watchdog_s", 150.0))
             backend.now = max(backend.now, sched.now)
+            for t_ in sched.tasks:
+                if t_.exc is not None and D.is_harness_exc(t_.exc):
+                    raise D.HarnessError(f"harness exception in task {t_.name}: {t_.exc!r}") from t_.exc
             rec.update({"sched": sched.outcome, "steps": sched.step, "t1": backend.now, "trace": list(sched.trace), "api_calls": boto.n,
                         "calls_after_failure": boto.calls_after_failure, "failed_at": boto.failed_at,
                         "deadlock_info": sched.deadlock_info, "switches": sched.switches, "abort_dump": sched.abort_dump,
